@@ -116,3 +116,97 @@ Section Spec.
     | _ => tget t n
     end.
 End Spec.
+
+(* ------------------------------------------------------------------------------------------- *)
+(* Vocabulary of the history-level theorems. *)
+
+(* one job per name *)
+Definition twf (t : table) : Prop := NoDup (map j_name t).
+
+Section Timing.
+  Variable c : config.
+  Let p := c_ct c.
+
+  (* the time a job of that name must have (the epoch-preparation job is not tied to a duty) *)
+  Definition time_of (n : jname) : option Z :=
+    match n with
+    | JAtt s => Some (start_of_slot p s + c_att_delay c)%Z
+    | JProp s => Some (start_of_slot p s + c_prop_delay c)%Z
+    | JEarly s => Some (start_of_slot p s)
+    | JSync s => Some (sync_time c s)
+    | JPrep _ => None
+    end.
+
+  Definition canon_job (n : jname) (j : job) : Prop :=
+    j_name j = n /\ match time_of n with Some z => j_time j = z | None => True end.
+
+  (* every job is filed under its own name and timed at its slot's start plus the configured delay *)
+  Definition timed (t : table) : Prop := forall n j, tget t n = Some j -> canon_job n j.
+  Definition tbl_ok (t : table) : Prop := twf t /\ timed t.
+End Timing.
+
+(* after a start-up every job concerns a slot strictly after the current one *)
+Definition later_name (cur : N) (n : jname) : Prop :=
+  match n with
+  | JAtt s | JProp s | JEarly s | JSync s => cur < s
+  | JPrep _ => False
+  end.
+Definition later (cur : N) (t : table) : Prop := forall n j, tget t n = Some j -> later_name cur n.
+
+Definition not_start (o : op) : Prop := match o with Start => False | _ => True end.
+
+(* the slots attested for / proposed for so far, oldest first *)
+Definition att_slots (st : state) : list N := map fst (st_att_log st).
+Definition prop_slots (st : state) : list N := map fst (st_prop_log st).
+
+Section Discipline.
+  Variable shadowed : bool.
+  Variable c : config.
+
+  (* the uint64 slot arithmetic of the next three epochs does not wrap *)
+  Definition bounded (s : N) : Prop := (s / ct_spe (c_ct c) + 3) * ct_spe (c_ct c) < two64.
+
+  (* The discipline of a history: the events a running Vouch can see.  The clock moves forward;
+     a job runs at or after the start of its slot (early only through the fast-track and
+     propose-early paths, which are part of Head / Fire JEarly); the epoch ticker really runs only
+     in the first slot of an epoch later than the one the process started in (the periodic job's
+     first run is at the start of the NEXT epoch); "Prepare for epoch e" runs before epoch e
+     begins; the entry points reachable only through the harness hooks are not events.
+     [g] is the epoch in which the running process started (ghost). *)
+  Definition op_ok (g : N) (st : state) (o : op) : Prop :=
+    match o with
+    | Advance s => st_cur st <= s /\ bounded s
+    | SetEnv _ => True
+    | Start => True
+    | Tick => (Z.of_N (st_cur st / ct_spe (c_ct c)) <= st_tick st)%Z       (* a repeated tick: guarded *)
+              \/ (g < st_cur st / ct_spe (c_ct c) /\ st_cur st = (st_cur st / ct_spe (c_ct c)) * ct_spe (c_ct c))
+    | Head _ _ _ => True
+    | Fire (JAtt s) _ | Fire (JProp s) _ | Fire (JEarly s) _ => s <= st_cur st
+    | Fire (JPrep e) _ => st_cur st / ct_spe (c_ct c) < e /\ e * ct_spe (c_ct c) < two64
+    | Fire (JSync _) _ => True
+    | RefreshAtt _ => True
+    | RefreshProp ep => ep = st_cur st / ct_spe (c_ct c)
+    | SchedAtt _ _ | SchedProp _ _ | SchedSync _ _ | RefreshSync _ => False
+    end.
+
+  Definition ghost (g : N) (st : state) (o : op) : N :=
+    match o with Start => st_cur st / ct_spe (c_ct c) | _ => g end.
+
+  Fixpoint hist_ok (g : N) (st : state) (ops : list op) : Prop :=
+    match ops with
+    | [] => True
+    | o :: ops' => op_ok g st o /\ hist_ok (ghost g st o) (step shadowed c st o) ops'
+    end.
+End Discipline.
+
+(* ------------------------------------------------------------------------------------------- *)
+(* MergeDuties: the (validator, committee, position) entries of a merged duty and of a list. *)
+Definition tuples (m : mduty) : list (N * N * N) := combine (combine (md_vals m) (md_comms m)) (md_vcis m).
+Definition flat (acc : list mduty) : list (N * (N * N * N)) :=
+  flat_map (fun m => map (fun t => (md_slot m, t)) (tuples m)) acc.
+Definition entry (d : fduty) : N * (N * N * N) := (fd_slot d, (fd_val d, fd_comm d, fd_vci d)).
+
+(* parallel arrays of equal length, not empty, one committee size per entry *)
+Definition wf_m (m : mduty) : Prop :=
+  length (md_vals m) = length (md_comms m) /\ length (md_vals m) = length (md_vcis m) /\
+  md_vals m <> [] /\ map fst (md_clens m) = md_comms m.
